@@ -5,7 +5,7 @@ import SqlgrepModel.Model.DecFloat
 import SqlgrepModel.Lemmas.JsonParser
 /-
 `serde_json::from_str::<serde_json::Value>(line)` computed in Lean, as sqlgrep uses it (serde_json 1.0.134 with
-`preserve_order`, without `arbitrary_precision` and without `float_roundtrip`):
+`preserve_order` and `float_roundtrip`, without `arbitrary_precision`):
 
   docOfLine : bytes of the line → Option Json        (`none` = `Err`: sqlgrep then extracts from `Value::Null`)
 
@@ -15,13 +15,10 @@ import SqlgrepModel.Lemmas.JsonParser
    *lexeme* of every number (`parseJsonL_erase`: forgetting the lexemes gives exactly `parseJson`'s answer);
 3. serde_json's own limits: nesting deeper than 127 containers is an error (`remaining_depth: 128`), and so is a
    number outside the REAL range;
-4. numbers (`serdeNumber`, a transcription of `Deserializer::parse_integer / parse_number / parse_decimal /
-   parse_exponent / parse_long_integer / parse_decimal_overflow / parse_exponent_overflow / f64_from_parts`):
-   an integer literal that fits `u64` (`i64` when negative) is an integer; every other literal is an `f64` computed
-   the way serde_json computes it *without* `float_roundtrip`: the first digits that fit a `u64` as significand,
-   `significand as f64`, then one multiplication or division by a power of ten from the table `POW10` (two when the
-   exponent is below −308) — each step a correctly rounded IEEE operation, done here exactly (`DecFloat.magBits`);
-   the result is NOT always the correctly rounded value of the literal, and this function reproduces that;
+4. numbers (`serdeNumber`): an integer literal that fits `u64` (`i64` when negative) is an integer; every other literal
+   is the REAL nearest to the decimal number it denotes (`DecFloat.decToF64` of the grammar's `Dec`; serde_json's
+   `float_roundtrip` reader, enabled in /repo 265d413 — before that the reader could be one unit in the last place off:
+   finding D66);
 5. objects: `Map::insert` with `preserve_order` — a repeated key keeps its first position and takes the last value;
 6. strings and keys are the UTF-8 bytes of the characters the literal denotes.
 -/
@@ -160,119 +157,53 @@ def LVal.eraseMembers : List (List Char × LVal) → List (List Char × JVal)
   | (k, x) :: ms => (k, x.erase) :: LVal.eraseMembers ms
 end
 
-/-! ### IEEE-754 `×` and `÷` of non-negative finite REALs, exactly (correct rounding of the exact product / quotient) -/
+/-! ### serde_json's number reader (with `float_roundtrip`, without `arbitrary_precision`)
 
-/-- `a * b` for finite patterns with the sign bit clear; overflow gives `+inf` -/
-def mulF (a b : Nat) : Nat :=
-  let (m1, e1) := F64.mantExp a
-  let (m2, e2) := F64.mantExp b
-  let e := e1 + e2
-  if 0 ≤ e then DecFloat.magBits (m1 * m2 * 2 ^ e.toNat) 1 else DecFloat.magBits (m1 * m2) (2 ^ (-e).toNat)
-
-/-- `a / b` for finite patterns with the sign bit clear, `b ≠ 0` -/
-def divF (a b : Nat) : Nat :=
-  let (m1, e1) := F64.mantExp a
-  let (m2, e2) := F64.mantExp b
-  let e := e1 - e2
-  if 0 ≤ e then DecFloat.magBits (m1 * 2 ^ e.toNat) m2 else DecFloat.magBits m1 (m2 * 2 ^ (-e).toNat)
-
-/-! ### serde_json's number reader (no `float_roundtrip`, no `arbitrary_precision`) -/
+Since /repo 265d413 sqlgrep builds serde_json with `float_roundtrip`: a number that is not kept as an integer is
+converted by `lexical::parse_concise_float` / `parse_truncated_float`, i.e. it is the REAL nearest to the decimal
+number the literal denotes (ties to even) — the function `DecFloat.decToF64`, applied to the denotation `Dec` that
+the RFC grammar (`JsonGrammar.numValue`, `NumD`) gives the literal. What remains serde_json's own:
+* an integer literal (no fraction, no exponent) whose value fits `u64` stays an integer: `PosInt` when positive,
+  `NegInt` when negative and `≥ i64::MIN`; `-0` is the float `-0.0`; a negative one below `i64::MIN` is
+  `-(significand as f64)` (the same nearest REAL);
+* an infinite result is the error `NumberOutOfRange` (also when the exponent does not fit an `i32`: then a non-zero
+  number with a positive exponent is out of range and everything else is ±0 — exactly what the nearest REAL gives);
+* the sign of a zero comes from the text (`-0.0`, `-0e5`): `Dec` has no negative zero. -/
 
 def u64Max : Nat := 18446744073709551615
-def i32Max : Int := 2147483647
-def i32Min : Int := -2147483648
-/-- `i32::saturating_add` / `saturating_sub` of the exact result -/
-def satI32 (x : Int) : Int := if x < i32Min then i32Min else if i32Max < x then i32Max else x
 
-/-- the table `POW10[k]` (`1e0 … 1e308`, each literal correctly rounded by rustc) -/
-def pow10 (k : Nat) : Nat := DecFloat.decToF64 false 1 k
+/-- does the literal start with `-` -/
+def lexNeg (lex : List Char) : Bool :=
+  match lex with
+  | '-' :: _ => true
+  | _ => false
 
-/-- `significand as f64` -/
-def u64ToF64 (n : Nat) : Nat := DecFloat.decToF64 false n 0
+/-- an integer literal: an optional `-` and digits only (no fraction, no exponent) -/
+def isIntLiteral (lex : List Char) : Bool :=
+  match lex with
+  | '-' :: t => t.all (fun c => decide (Digit c))
+  | t => t.all (fun c => decide (Digit c))
 
-/-- the loop of `f64_from_parts` on the magnitude; `none` = `NumberOutOfRange`.  At most two passes go through the
-`None` arm with `f ≠ 0` (`f ≤ 2^64`, two divisions by `1e308` give 0), so the fuel is never exhausted. -/
-def fromPartsLoop : Nat → Nat → Int → Option Nat
-  | 0, f, _ => some f
-  | fuel + 1, f, e =>
-    if e.natAbs ≤ 308 then
-      if 0 ≤ e then
-        let r := mulF f (pow10 e.toNat)
-        if r = DecFloat.infBits then none else some r
-      else some (divF f (pow10 (-e).toNat))
-    else if f = 0 then some 0
-    else if 0 ≤ e then none
-    else fromPartsLoop fuel (divF f (pow10 308)) (e + 308)
+/-- the REAL nearest to the number a literal denotes, with the sign of the literal -/
+def realOfDec (neg : Bool) (d : Dec) : Nat := DecFloat.decToF64 neg d.mant.natAbs d.exp
 
-/-- `f64_from_parts(positive, significand, exponent)`: the bits, `none` = error -/
-def f64FromParts (neg : Bool) (sig : Nat) (exponent : Int) : Option Nat :=
-  (fromPartsLoop 6 (u64ToF64 sig) exponent).map (fun m => (if neg then DecFloat.signMask else 0) + m)
-
-/-- digits are taken into the `u64` significand while `significand * 10 + digit` fits; returns the significand and the
-digits not taken -/
-def accum (sig : Nat) : List Char → Nat × List Char
-  | [] => (sig, [])
-  | c :: cs =>
-    if u64Max < sig * 10 + (c.toNat - 48) then (sig, c :: cs) else accum (sig * 10 + (c.toNat - 48)) cs
-
-/-- the parts of a number lexeme `[-] int [. frac] [(e|E) [+|-] digits]` (the lexeme is a `number` of the grammar) -/
-structure NumLex where
-  neg : Bool
-  int : List Char
-  frac : Option (List Char)            -- digits after the point
-  exp : Option (Bool × List Char)      -- exponent: negative?, digits
-  deriving Repr, Inhabited
-
-def splitExp (cs : List Char) : Option (Bool × List Char) :=
-  match cs with
-  | e :: t =>
-    if e = 'e' ∨ e = 'E' then
-      match t with
-      | '-' :: ds => some (true, ds)
-      | '+' :: ds => some (false, ds)
-      | ds => some (false, ds)
-    else none
-  | [] => none
-
-def splitNum (lex : List Char) : NumLex :=
-  let (neg, body) : Bool × List Char := match lex with | '-' :: t => (true, t) | t => (false, t)
-  let (i, r) := spanDigits body
-  match r with
-  | '.' :: t => let (fd, r2) := spanDigits t; { neg := neg, int := i, frac := some fd, exp := splitExp r2 }
-  | r => { neg := neg, int := i, frac := none, exp := splitExp r }
-
-/-- `parse_exponent` and what follows: the exponent digits are read into an `i32`; if they do not fit
-(`parse_exponent_overflow`) a non-zero significand with a positive exponent is `NumberOutOfRange`, everything else
-is ±0; else `f64_from_parts(significand, starting_exp ± exp)` with saturating arithmetic -/
-def withExponent (neg : Bool) (sig : Nat) (startingExp : Int) : Option (Bool × List Char) → Option Nat
-  | none => f64FromParts neg sig startingExp
-  | some (eneg, ds) =>
-    let ev : Int := digitsVal ds
-    if i32Max < ev then
-      if sig ≠ 0 ∧ !eneg then none else some (if neg then DecFloat.signMask else 0)
-    else f64FromParts neg sig (satI32 (if eneg then startingExp - ev else startingExp + ev))
-
-/-- serde_json's value of a number lexeme; `none` = `NumberOutOfRange` (the whole text is then not a document) -/
+/-- serde_json's value of a number lexeme; `none` = not a number of the grammar, or `NumberOutOfRange` (the whole
+text is then not a document) -/
 def serdeNumber (lex : List Char) : Option JNum :=
-  let n := splitNum lex
-  let (sig, dropped) := accum 0 n.int
-  match dropped, n.frac, n.exp with
-  | [], none, none =>
-    -- `parse_number`, an integer literal that fits `u64`
-    if !n.neg then some (.posInt sig (u64ToF64 sig))
-    else if sig = 0 then some (.float DecFloat.signMask)                             -- `-0` is the float -0.0
-    else if sig ≤ 9223372036854775808 then some (.negInt (-(sig : Int)) (DecFloat.decToF64 true sig 0))
-    else some (.float (DecFloat.decToF64 true sig 0))                                 -- below `i64::MIN`: `-(sig as f64)`
-  | _, _, _ =>
-    -- `parse_long_integer` counts the integer digits that did not fit; `parse_decimal` goes on taking fraction
-    -- digits while they fit (`parse_decimal_overflow` ignores the rest)
-    let (sig2, expo) : Nat × Int :=
-      match n.frac with
-      | none => (sig, (dropped.length : Int))
-      | some fd =>
-        let (s2, rest) := accum sig fd
-        (s2, (dropped.length : Int) - ((fd.length - rest.length : Nat) : Int))
-    (withExponent n.neg sig2 expo n.exp).map .float
+  match numValue lex with
+  | none => none
+  | some d =>
+    let neg := lexNeg lex
+    let m := d.mant.natAbs
+    let bits := realOfDec neg d
+    if bits % 2 ^ 63 = DecFloat.infBits then none                          -- `NumberOutOfRange` (never an integer that fits `u64`)
+    else if isIntLiteral lex ∧ m ≤ u64Max then
+      -- `parse_number`: an integer literal that fits `u64`
+      if !neg then some (.posInt m bits)
+      else if m = 0 then some (.float bits)                                -- `-0` is the float -0.0
+      else if m ≤ 9223372036854775808 then some (.negInt (-(m : Int)) bits)
+      else some (.float bits)                                              -- below `i64::MIN`: `-(significand as f64)`
+    else some (.float bits)
 
 /-! ### the document -/
 
